@@ -396,6 +396,24 @@ def k5_no_inplace_through_getter(P, R, modules=None):
                     if kw.arg == "out" and isinstance(kw.value, ast.Attribute) and kw.value.attr in GETTER_PARAMS and _gmm_receiver(P, kw.value.value, f):
                         n += 1
                         R.violation("CACHE.K5", f.key, f"out={src(kw.value)}", "writes into the machine's array without the setter", c.lineno)
+    # the array handed to a setter is the machine's array from then on: mutating it in place afterwards bypasses the setter
+    for f in P.all_funcs(modules):
+        du = None
+        for st, t, v, k in stores(f):
+            if k == "assign" and isinstance(t, ast.Attribute) and t.attr in ("weights", "variances", "variance_thresholds") and isinstance(v, ast.Name) and _gmm_receiver(P, t.value, f):
+                du = du or get_defuse(f, P)
+                sst = du.stmt_of(st)
+                vdefs = {id(d) for d in du.reaching(sst, v.id)}
+                for st2, t2, v2, k2 in stores(f):
+                    base = t2
+                    while isinstance(base, ast.Subscript):
+                        base = base.value
+                    inplace = (k2 == "aug" and isinstance(t2, ast.Name)) or (isinstance(t2, ast.Subscript))
+                    if inplace and isinstance(base, ast.Name) and base.id == v.id:
+                        s2 = du.stmt_of(st2)
+                        if du.cfg.reach_avoiding(sst, s2) and {id(d) for d in du.reaching(s2, v.id)} & vdefs:
+                            n += 1
+                            R.violation("CACHE.K5", f.key, f"`{src(st2)[:50]}` after `{src(st)[:50]}`", f"`{v.id}` was handed to the {t.attr} setter and is then modified in place: the machine's array changes without the setter, so the cached log-weights / normaliser / clamp are stale", st2.lineno)
     R.ok("CACHE.K5", "package", "no element store / out= / aliased in-place op on GMM parameter arrays", f"{sum(1 for _ in P.all_funcs(modules))} functions scanned", nontrivial=False)
     return n
 
